@@ -125,11 +125,15 @@ func init() {
 	lineCmds["aperdec"] = func(in map[string]interface{}) map[string]interface{} {
 		t, pre := aperMkType(in)
 		v := reflect.New(t)
-		if err := aper.UnmarshalWithParams(exactBytes(unhex(in, "hex")), v.Interface(), str(in, "top")); err != nil {
+		inb := exactBytes(unhex(in, "hex"))
+		if err := aper.UnmarshalWithParams(inb, v.Interface(), str(in, "top")); err != nil {
 			return map[string]interface{}{"err": err.Error()}
 		}
 		f := v.Elem().Field(pre)
 		out := map[string]interface{}{}
+		if hx(inb) != str(in, "hex") {
+			out["input_after"] = hx(inb) // a decoder reads its input: the caller's buffer must come back unchanged
+		}
 		pb := ""
 		for i := 0; i < pre; i++ {
 			if v.Elem().Field(i).Bool() {
